@@ -302,6 +302,7 @@ REG.add(Contract(
     raises=[("ImpossibleMatch", "regex_unmatched(arch._graph, modules)")],
     ensures=[
         "forall(Filter, lambda f: (f in result[0]) == conv_member(arch._graph, modules, f))",
+        "same_elements(result[0], conv(arch._graph, modules))",
         "forall(Node, lambda k: (k in result[1]) == exists(Filter, lambda r: (r in modules) and is_regex(r) and fid(r) == k))",
         "forall(Node, Mod, lambda k, x: implies(k in result[1], (x in result[1][k]) == ((not is_group(x)) and node(arch._graph, mid(x)) and re_matches(k, mid(x)))))",
     ],
@@ -346,6 +347,7 @@ REG.add(Contract("RuleMatcher._updated_module_requirements", module=M_RM, kind="
                  requires=["WF(evaluable._graph)"],
                  raises=[("ImpossibleMatch", "regex_unmatched(evaluable._graph, self._module_requirement._importer_as_specified_by_user) or regex_unmatched(evaluable._graph, self._module_requirement._importees_as_specified_by_user)")],
                  ensures=["umr_ok(evaluable._graph, old(self)._module_requirement, self._updated_module_requirement)",
+                          "self._updated_module_requirement == umr_of(evaluable._graph, old(self)._module_requirement)",
                           "self._module_requirement == old(self)._module_requirement",
                           "self._behavior_requirement == old(self)._behavior_requirement"],
                  properties=["C01", "C11", "C13"]))
@@ -444,3 +446,56 @@ REG.add(Contract("RuleMatcher._find_rule_violations", module=M_RM, kind="method"
                  opaque=["realised_b", "abstract_b", "realised_m_b", "missing_b", "G_realised_b", "G_abstract_b", "G_or_f", "G_or_r", "G_om_f", "G_om_r"],
                  properties=["C01", "C03", "C12", "C13"]))
 
+
+# ---------------------------------------------------------------- conv(g, F): the converted filter set as ONE term
+from pyvc.vals import Graph as _Graph, sort_of as _sort_of
+_FSET = _z3.ArraySort(_sort_of(("data", "Filter")), _z3.BoolSort())
+_f_conv = _z3.Function("conv", _Graph, _FSET, _FSET)
+
+
+@REG.specfun("conv")
+def _conv(eng, st, g, F):
+    """{f | conv_member(g, F, f)} as a function symbol with its definitional axiom (conservative extension)."""
+    F = eng.reg.as_membership(eng, F)
+    if "conv" not in eng.axioms_used:
+        saved_bound, saved_spec, saved_q = dict(eng.bound), eng.spec, getattr(eng, "qdepth", 0)
+        eng.spec, eng.qdepth = True, 80
+        try:
+            gv, Fv, fv = eng.bvar("ax!g", "Graph"), eng.bvar("ax!F", "Bag[Filter]"), eng.bvar("ax!f", "Filter")
+            eng.bound = dict(g=gv, F=Fv, f=fv)
+            eng.qdepth = 81
+            from pyvc.state import State as _S
+            body = eng.truth(eng.ev1(eng.reg.parse_spec("conv_member(g, F, f)"), _S()))
+            app = _z3.Select(_f_conv(gv.x, Fv.x), fv.x)
+            eng.axioms_used["conv"] = _z3.ForAll([gv.x, Fv.x, fv.x], app == body, patterns=[app])
+        finally:
+            eng.bound, eng.spec, eng.qdepth = saved_bound, saved_spec, saved_q
+    return _V(("bag", ("data", "Filter")), _f_conv(g.x, F.x))
+
+
+# the converted requirement as a function of (graph, requirement as given by the user)
+REG.macro("umr_of", ["g", "mr"],
+          "new(ModuleRequirement, _importer_as_specified_by_user=conv(g, mr._importer_as_specified_by_user), "
+          "_importees_as_specified_by_user=conv(g, mr._importees_as_specified_by_user), "
+          "_importers=conv(g, mr._importer_as_specified_by_user if mr._importer_specified_as_rule_subject else mr._importees_as_specified_by_user), "
+          "_importees=conv(g, mr._importees_as_specified_by_user if mr._importer_specified_as_rule_subject else mr._importer_as_specified_by_user), "
+          "_importer_specified_as_rule_subject=mr._importer_specified_as_rule_subject)")
+REG.macro("verdict_viol", ["g", "u", "b"],
+          "(b.should_not and (not b.behavior_exception) and exists(Dep, lambda x: G_realised(g, u, x))) or "
+          "(b.should and (not b.behavior_exception) and exists(Dep, lambda x: G_abstract_missing(g, u, x))) or "
+          "(b.should_only and (not b.behavior_exception) and (exists(Dep, lambda x: G_abstract_missing(g, u, x)) or exists(Dep, lambda x: G_other_realised(g, u, x)))) or "
+          "(b.should and b.behavior_exception and exists(Dep, lambda x: G_other_missing(g, u, x))) or "
+          "(b.should_only and b.behavior_exception and (exists(Dep, lambda x: G_other_missing(g, u, x)) or exists(Dep, lambda x: G_realised(g, u, x)))) or "
+          "(b.should_not and b.behavior_exception and exists(Dep, lambda x: G_other_realised(g, u, x)))")
+REG.macro("mr_unmatched", ["g", "mr"], "regex_unmatched(g, mr._importer_as_specified_by_user) or regex_unmatched(g, mr._importees_as_specified_by_user)")
+_OPQ = ["realised_b", "abstract_b", "realised_m_b", "missing_b", "G_realised_b", "G_abstract_b", "G_or_f", "G_or_r", "G_om_f", "G_om_r"]
+REG.add(Contract("RuleMatcher._create_rule_violation_message", module=M_RM, kind="method", status="assumed",
+                 params=dict(self=DRM, rule_violations="RuleViolations"), returns="Str",
+                 note="message text: covered by C03 (record level) and its bounded text check, irrelevant for the verdict"))
+REG.add(Contract("RuleMatcher.match", module=M_RM, kind="method",
+                 params=dict(self=DRM, evaluable="EvaluableArchitectureGraph"), returns="None", modifies=["self"],
+                 requires=["WF(evaluable._graph)"],
+                 raises=[("ImpossibleMatch", "mr_unmatched(evaluable._graph, self._module_requirement)"),
+                         ("NetworkXError", "(not mr_unmatched(evaluable._graph, self._module_requirement)) and fv_raises(evaluable._graph, umr_of(evaluable._graph, self._module_requirement), self._behavior_requirement)"),
+                         ("AssertionError", "(not mr_unmatched(evaluable._graph, self._module_requirement)) and (not fv_raises(evaluable._graph, umr_of(evaluable._graph, self._module_requirement), self._behavior_requirement)) and verdict_viol(evaluable._graph, umr_of(evaluable._graph, self._module_requirement), self._behavior_requirement)")],
+                 opaque=_OPQ, properties=["C01", "C03", "C11", "C12", "C13", "C15"]))
